@@ -944,7 +944,11 @@ func (x *X) Logf(format string, a ...any) {
 
 // Explore runs the DFS for bounds 0..Opts.Bound. It returns false if a cap or
 // the real-time budget stopped it early.
+// BoundDoneCounts counts finished explorations by the largest deviation bound they completed (-1: none).
+var BoundDoneCounts = map[int]int64{}
+
 func (e *Explorer) Explore() (complete bool) {
+	defer func() { BoundDoneCounts[e.BoundDone]++ }()
 	for b := 0; b <= e.Opts.Bound; b++ {
 		e.curBound = b
 		if _, ok := e.explore(nil, -1, nil, 0, b); !ok {
